@@ -238,7 +238,9 @@ func properties() map[string]*Property {
 	numFns := []string{"ReadUint64", "ReadUint32", "ReadInt64", "ReadInt32", "ReadInt", "ReadUint", "ReadFloat64",
 		"DecodeBool", "DecodeFloat64", "DecodeInt64", "DecodeInt32", "DecodeInt", "DecodeUint64", "DecodeUint32", "DecodeUint"}
 	ps["C19"] = &Property{ID: "C19", Level: "proof",
-		Jobs:   append(hostile(concat(pureFns, numFns, fpFns)...), hostile("growBytesSliceCapacity", "unescapeUnicodeChar")...),
+		Jobs: append(append(hostile(concat(pureFns, numFns, fpFns)...), hostile("growBytesSliceCapacity", "unescapeUnicodeChar")...),
+			// a warmed Buffer stays warmed: the stack slice a machine returns is never shorter than the one it got
+			hostile("skipValue", "skipValueFast", "handleArrayValues", "handleObjectValues", "SkipValue", "SkipValueFast", "HandleArrayValues", "HandleObjectValues")...),
 		Kinds:  map[string]bool{"ensures": true, "inv-init": true, "inv-preserved": true, "requires@call": true},
 		Labels: []string{"C19"},
 		Extra:  []string{"fp-noalloc-scan", "bounded-zero-alloc"},
@@ -247,7 +249,7 @@ func properties() map[string]*Property {
 			"internal/fp: ParseJSONFloatPrefix, readFloat, (*decimal).set, atof64exact, eiselLemire64 are proved not to allocate; (*decimal).floatBits and the shifting code below it contain no allocating instruction (SSA scan of the function and its callees: no make / append / conversion / boxing / closure / escaping local; one obligation per function)",
 			"NOT covered: SkipValue, SkipValueFast, Valid, HandleArrayValues, HandleObjectValues with a warmed Buffer (their only allocation sites are the stack-growth sites guarded by `top+1 >= len(stack)`, see C20; that a buffer warmed on a document at least as deep makes the guard false needs a depth bound that is not built), and ReadStringBytes / UnescapeStringContent with spare capacity (their contracts state it for growBytesSliceCapacity and unescapeUnicodeChar only)",
 		},
-		Subset: "successful calls of the token, null, bool, integer and float readers and of the numeric/boolean Decode functions (including Decode on a null input) request zero heap bytes: ensures `err == nil ==> ghost_alloc == old(ghost_alloc)` for each, modularly through their callees; growBytesSliceCapacity and unescapeUnicodeChar request nothing when capacity suffices",
+		Subset: "successful calls of the token, null, bool, integer and float readers and of the numeric/boolean Decode functions (including Decode on a null input) request zero heap bytes: ensures `err == nil ==> ghost_alloc == old(ghost_alloc)` for each, modularly through their callees; growBytesSliceCapacity and unescapeUnicodeChar request nothing when capacity suffices; the four stack machines and their wrappers never return / store back a stack slice shorter than the one they were given, on any exit (so a Buffer that was used on a deep document stays warmed - the hypothesis of the property is preserved by every call, failing ones included)",
 	}
 	c20fns := concat(pureFns, numFns, fpFns, []string{"growBytesSliceCapacity", "unescapeUnicodeChar", "errUnexpectedByteInString",
 		"skipValue", "skipValueFast", "handleArrayValues", "handleObjectValues", "SkipValue", "SkipValueFast", "HandleArrayValues", "HandleObjectValues",
